@@ -45,7 +45,9 @@
 //  3. goroutine census: no goroutine with a frame in go.nanomsg.org/mangos/v3/ (outside ve/),
 //     github.com/gorilla/websocket, net/http.(*Server).Serve or net/http.(*conn) remains;
 //  4. no pipe id is allocated and no socket lists a pipe;
-//  5. every address a mangos listener was bound to can be bound again at once;
+//  5. every address a mangos listener was bound to can be bound again at once (each worker
+//     uses a loopback address of its own, 127.x.y.z derived from its pid, with OS-assigned
+//     ports, so that no other process can be handed the port in between);
 //  6. for 300 ms after the census every address a mangos dialer was dialling is watched by a
 //     probe listener: no connection attempt arrives (a redial timer left armed would dial);
 //     then the census is taken again and the number of open socket descriptors of the
